@@ -93,6 +93,16 @@ package altair
 //@   ensures err != nil ==> score_at(n_set_score, v, index) == score_at(old(n_set_score), v, index)
 //@   ensures forall k :: {score_at(n_set_score, v, k)} k != index ==> score_at(n_set_score, v, k) == score_at(old(n_set_score), v, k)
 
+// ---------------------------------------------------------------- rewards and penalties from altair on (C02)
+// get_flag_index_deltas / get_inactivity_penalty_deltas over the epoch's attester data. uint64 products wrap as in the
+// code (mul64, see the prelude); the specification's uint64 arithmetic has the same products and calls an overflow invalid.
+//@ sort FlatsA = []common.FlatValidator
+//@ sort PartT = ParticipationRegistry
+//@ sort VIdxsA = []common.ValidatorIndex
+//@ define wadd64(a int, b int) int = ite(a + b >= 18446744073709551616, a + b - 18446744073709551616, a + b)
+// balance of the unslashed validators among act[0..k) that have the flag
+//@ defrec part_sum(fl FlatsA, pr PartT, act VIdxsA, flag int, k int) int = ite(k <= 0, 0, wadd64(part_sum(fl, pr, act, flag, k - 1), ite(!fl[act[k - 1]].Slashed && pr[act[k - 1]] & flag != 0, fl[act[k - 1]].EffectiveBalance, 0)))
+
 // BEGIN C18 generated (tools/gen_c18.py in /verif)
 // cancelled: a context cancelled before the call makes it fail; surfaced: a cancellation observed by a poll
 // during the call makes it fail; polled: success after a poll means the context was not cancelled at entry.
@@ -126,7 +136,7 @@ package altair
 //@     invariant ctx_t > old(ctx_t) ==> !ctx_cancelled(ctx, old(ctx_t))
 
 //@ func ComputeFlagDeltas(ctx, spec, epc, attesterData, flag, weight, isInactivityLeak) (r0, err)
-//@   property C18
+//@   property C18 C02
 //@   panics off
 //@   requires ctx != nil
 //@   opt weakcalls
@@ -138,9 +148,26 @@ package altair
 //@   loop *
 //@     invariant ctx_t >= old(ctx_t) && (old(ctx_seen) || !ctx_seen)
 //@     invariant ctx_t > old(ctx_t) ==> !ctx_cancelled(ctx, old(ctx_t))
+//@   opt rangeindex=on
+//@   opt mul=opaque
+//@   use mul64_range
+//@   ensures c02_shape: err == nil ==> r0 != nil && len(r0.Rewards) == old(len(attesterData.Flats)) && len(r0.Penalties) == old(len(attesterData.Flats))
+//@   ensures c02_rewards: err == nil && old(spec != nil && epc != nil && attesterData != nil && epc.PreviousEpoch != nil && len(attesterData.Flats) < 4611686018427387904 && ((epc.TotalActiveStake / spec.EFFECTIVE_BALANCE_INCREMENT) * 64) % 18446744073709551616 != 0 && (forall i, j :: {attesterData.EligibleIndices[i], attesterData.EligibleIndices[j]} 0 <= i && i < j && j < len(attesterData.EligibleIndices) ==> attesterData.EligibleIndices[i] != attesterData.EligibleIndices[j]) && (forall j :: {attesterData.EligibleIndices[j]} 0 <= j && j < len(attesterData.EligibleIndices) ==> attesterData.EligibleIndices[j] < len(attesterData.Flats))) ==> (forall j :: {attesterData.EligibleIndices[j]} 0 <= j && j < len(attesterData.EligibleIndices) ==> r0.Rewards[attesterData.EligibleIndices[j]] == old(ite((!attesterData.Flats[attesterData.EligibleIndices[j]].Slashed && attesterData.PrevParticipation[attesterData.EligibleIndices[j]] & flag != 0) && !isInactivityLeak, mul64(mul64(mul64(attesterData.Flats[attesterData.EligibleIndices[j]].EffectiveBalance / spec.EFFECTIVE_BALANCE_INCREMENT, (mul64(spec.EFFECTIVE_BALANCE_INCREMENT, spec.BASE_REWARD_FACTOR) / epc.TotalActiveStakeSqRoot)), weight), max(part_sum(attesterData.Flats, attesterData.PrevParticipation, epc.PreviousEpoch.ActiveIndices, flag, len(epc.PreviousEpoch.ActiveIndices)), spec.EFFECTIVE_BALANCE_INCREMENT) / spec.EFFECTIVE_BALANCE_INCREMENT) / (((epc.TotalActiveStake / spec.EFFECTIVE_BALANCE_INCREMENT) * 64) % 18446744073709551616), 0)))
+//@   ensures c02_penalties: err == nil && old(spec != nil && epc != nil && attesterData != nil && epc.PreviousEpoch != nil && len(attesterData.Flats) < 4611686018427387904 && ((epc.TotalActiveStake / spec.EFFECTIVE_BALANCE_INCREMENT) * 64) % 18446744073709551616 != 0 && (forall i, j :: {attesterData.EligibleIndices[i], attesterData.EligibleIndices[j]} 0 <= i && i < j && j < len(attesterData.EligibleIndices) ==> attesterData.EligibleIndices[i] != attesterData.EligibleIndices[j]) && (forall j :: {attesterData.EligibleIndices[j]} 0 <= j && j < len(attesterData.EligibleIndices) ==> attesterData.EligibleIndices[j] < len(attesterData.Flats))) ==> (forall j :: {attesterData.EligibleIndices[j]} 0 <= j && j < len(attesterData.EligibleIndices) ==> r0.Penalties[attesterData.EligibleIndices[j]] == old(ite(!(!attesterData.Flats[attesterData.EligibleIndices[j]].Slashed && attesterData.PrevParticipation[attesterData.EligibleIndices[j]] & flag != 0) && flag != 4, mul64(mul64(attesterData.Flats[attesterData.EligibleIndices[j]].EffectiveBalance / spec.EFFECTIVE_BALANCE_INCREMENT, (mul64(spec.EFFECTIVE_BALANCE_INCREMENT, spec.BASE_REWARD_FACTOR) / epc.TotalActiveStakeSqRoot)), weight) / 64, 0)))
+//@   ensures c02_others: err == nil && old(spec != nil && epc != nil && attesterData != nil && epc.PreviousEpoch != nil && len(attesterData.Flats) < 4611686018427387904 && ((epc.TotalActiveStake / spec.EFFECTIVE_BALANCE_INCREMENT) * 64) % 18446744073709551616 != 0 && (forall i, j :: {attesterData.EligibleIndices[i], attesterData.EligibleIndices[j]} 0 <= i && i < j && j < len(attesterData.EligibleIndices) ==> attesterData.EligibleIndices[i] != attesterData.EligibleIndices[j]) && (forall j :: {attesterData.EligibleIndices[j]} 0 <= j && j < len(attesterData.EligibleIndices) ==> attesterData.EligibleIndices[j] < len(attesterData.Flats))) ==> (forall k :: {r0.Rewards[k]} {r0.Penalties[k]} 0 <= k && k < len(r0.Rewards) && (forall j :: {attesterData.EligibleIndices[j]} 0 <= j && j < len(attesterData.EligibleIndices) ==> attesterData.EligibleIndices[j] != k) ==> r0.Rewards[k] == 0 && r0.Penalties[k] == 0)
+//@   loop 1
+//@     invariant out != nil && len(out.Rewards) == len(attesterData.Flats) && len(out.Penalties) == len(attesterData.Flats) && valCount == len(attesterData.Flats)
+//@     invariant unslashedParticipatingTotalBalance == part_sum(attesterData.Flats, attesterData.PrevParticipation, epc.PreviousEpoch.ActiveIndices, flag, rangeindex + 1)
+//@     invariant forall k :: {out.Rewards[k]} {out.Penalties[k]} 0 <= k && k < len(out.Rewards) ==> out.Rewards[k] == 0 && out.Penalties[k] == 0
+//@   loop 2
+//@     invariant out != nil && len(out.Rewards) == len(attesterData.Flats) && len(out.Penalties) == len(attesterData.Flats)
+//@     invariant unslashedParticipatingIncrements == max(part_sum(attesterData.Flats, attesterData.PrevParticipation, epc.PreviousEpoch.ActiveIndices, flag, len(epc.PreviousEpoch.ActiveIndices)), spec.EFFECTIVE_BALANCE_INCREMENT) / spec.EFFECTIVE_BALANCE_INCREMENT && activeIncrements == epc.TotalActiveStake / spec.EFFECTIVE_BALANCE_INCREMENT && baseRewardPerIncrement == (mul64(spec.EFFECTIVE_BALANCE_INCREMENT, spec.BASE_REWARD_FACTOR) / epc.TotalActiveStakeSqRoot)
+//@     invariant old(spec != nil && epc != nil && attesterData != nil && epc.PreviousEpoch != nil && len(attesterData.Flats) < 4611686018427387904 && ((epc.TotalActiveStake / spec.EFFECTIVE_BALANCE_INCREMENT) * 64) % 18446744073709551616 != 0 && (forall i, j :: {attesterData.EligibleIndices[i], attesterData.EligibleIndices[j]} 0 <= i && i < j && j < len(attesterData.EligibleIndices) ==> attesterData.EligibleIndices[i] != attesterData.EligibleIndices[j]) && (forall j :: {attesterData.EligibleIndices[j]} 0 <= j && j < len(attesterData.EligibleIndices) ==> attesterData.EligibleIndices[j] < len(attesterData.Flats))) ==> (forall j :: {attesterData.EligibleIndices[j]} 0 <= j && j <= rangeindex ==> out.Rewards[attesterData.EligibleIndices[j]] == ite((!attesterData.Flats[attesterData.EligibleIndices[j]].Slashed && attesterData.PrevParticipation[attesterData.EligibleIndices[j]] & flag != 0) && !isInactivityLeak, mul64(mul64(mul64(attesterData.Flats[attesterData.EligibleIndices[j]].EffectiveBalance / spec.EFFECTIVE_BALANCE_INCREMENT, (mul64(spec.EFFECTIVE_BALANCE_INCREMENT, spec.BASE_REWARD_FACTOR) / epc.TotalActiveStakeSqRoot)), weight), max(part_sum(attesterData.Flats, attesterData.PrevParticipation, epc.PreviousEpoch.ActiveIndices, flag, len(epc.PreviousEpoch.ActiveIndices)), spec.EFFECTIVE_BALANCE_INCREMENT) / spec.EFFECTIVE_BALANCE_INCREMENT) / (((epc.TotalActiveStake / spec.EFFECTIVE_BALANCE_INCREMENT) * 64) % 18446744073709551616), 0))
+//@     invariant old(spec != nil && epc != nil && attesterData != nil && epc.PreviousEpoch != nil && len(attesterData.Flats) < 4611686018427387904 && ((epc.TotalActiveStake / spec.EFFECTIVE_BALANCE_INCREMENT) * 64) % 18446744073709551616 != 0 && (forall i, j :: {attesterData.EligibleIndices[i], attesterData.EligibleIndices[j]} 0 <= i && i < j && j < len(attesterData.EligibleIndices) ==> attesterData.EligibleIndices[i] != attesterData.EligibleIndices[j]) && (forall j :: {attesterData.EligibleIndices[j]} 0 <= j && j < len(attesterData.EligibleIndices) ==> attesterData.EligibleIndices[j] < len(attesterData.Flats))) ==> (forall j :: {attesterData.EligibleIndices[j]} 0 <= j && j <= rangeindex ==> out.Penalties[attesterData.EligibleIndices[j]] == ite(!(!attesterData.Flats[attesterData.EligibleIndices[j]].Slashed && attesterData.PrevParticipation[attesterData.EligibleIndices[j]] & flag != 0) && flag != 4, mul64(mul64(attesterData.Flats[attesterData.EligibleIndices[j]].EffectiveBalance / spec.EFFECTIVE_BALANCE_INCREMENT, (mul64(spec.EFFECTIVE_BALANCE_INCREMENT, spec.BASE_REWARD_FACTOR) / epc.TotalActiveStakeSqRoot)), weight) / 64, 0))
+//@     invariant old(spec != nil && epc != nil && attesterData != nil && epc.PreviousEpoch != nil && len(attesterData.Flats) < 4611686018427387904 && ((epc.TotalActiveStake / spec.EFFECTIVE_BALANCE_INCREMENT) * 64) % 18446744073709551616 != 0 && (forall i, j :: {attesterData.EligibleIndices[i], attesterData.EligibleIndices[j]} 0 <= i && i < j && j < len(attesterData.EligibleIndices) ==> attesterData.EligibleIndices[i] != attesterData.EligibleIndices[j]) && (forall j :: {attesterData.EligibleIndices[j]} 0 <= j && j < len(attesterData.EligibleIndices) ==> attesterData.EligibleIndices[j] < len(attesterData.Flats))) ==> (forall k :: {out.Rewards[k]} {out.Penalties[k]} 0 <= k && k < len(out.Rewards) && (forall j :: {attesterData.EligibleIndices[j]} 0 <= j && j <= rangeindex ==> attesterData.EligibleIndices[j] != k) ==> out.Rewards[k] == 0 && out.Penalties[k] == 0)
 
 //@ func ComputeInactivityPenaltyDeltas(ctx, spec, epc, attesterData, inactivityScores, inactivityPenaltyQuotient) (r0, err)
-//@   property C18
+//@   property C18 C02
 //@   panics off
 //@   requires ctx != nil
 //@   opt weakcalls
@@ -152,6 +179,19 @@ package altair
 //@   loop *
 //@     invariant ctx_t >= old(ctx_t) && (old(ctx_seen) || !ctx_seen)
 //@     invariant ctx_t > old(ctx_t) ==> !ctx_cancelled(ctx, old(ctx_t))
+//@   opt rangeindex=on
+//@   opt mul=opaque
+//@   use mul64_range
+//@   ensures c02_shape: err == nil ==> r0 != nil && len(r0.Rewards) == old(len(attesterData.Flats)) && len(r0.Penalties) == old(len(attesterData.Flats)) && n_set_score == old(n_set_score)
+//@   ensures c02_penalties: err == nil && old(spec != nil && epc != nil && attesterData != nil && inactivityScores != nil && len(attesterData.Flats) < 4611686018427387904 && mul64(spec.INACTIVITY_SCORE_BIAS, inactivityPenaltyQuotient) != 0 && (forall i, j :: {attesterData.EligibleIndices[i], attesterData.EligibleIndices[j]} 0 <= i && i < j && j < len(attesterData.EligibleIndices) ==> attesterData.EligibleIndices[i] != attesterData.EligibleIndices[j]) && (forall j :: {attesterData.EligibleIndices[j]} 0 <= j && j < len(attesterData.EligibleIndices) ==> attesterData.EligibleIndices[j] < len(attesterData.Flats))) ==> (forall j :: {attesterData.EligibleIndices[j]} 0 <= j && j < len(attesterData.EligibleIndices) ==> r0.Penalties[attesterData.EligibleIndices[j]] == old(ite(!(!attesterData.Flats[attesterData.EligibleIndices[j]].Slashed && attesterData.PrevParticipation[attesterData.EligibleIndices[j]] & 2 != 0), mul64(attesterData.Flats[attesterData.EligibleIndices[j]].EffectiveBalance, score_at(n_set_score, inactivityScores, attesterData.EligibleIndices[j])) / mul64(spec.INACTIVITY_SCORE_BIAS, inactivityPenaltyQuotient), 0)))
+//@   ensures c02_no_rewards: err == nil ==> (forall k :: {r0.Rewards[k]} 0 <= k && k < len(r0.Rewards) ==> r0.Rewards[k] == 0)
+//@   ensures c02_others: err == nil && old(spec != nil && epc != nil && attesterData != nil && inactivityScores != nil && len(attesterData.Flats) < 4611686018427387904 && mul64(spec.INACTIVITY_SCORE_BIAS, inactivityPenaltyQuotient) != 0 && (forall i, j :: {attesterData.EligibleIndices[i], attesterData.EligibleIndices[j]} 0 <= i && i < j && j < len(attesterData.EligibleIndices) ==> attesterData.EligibleIndices[i] != attesterData.EligibleIndices[j]) && (forall j :: {attesterData.EligibleIndices[j]} 0 <= j && j < len(attesterData.EligibleIndices) ==> attesterData.EligibleIndices[j] < len(attesterData.Flats))) ==> (forall k :: {r0.Penalties[k]} 0 <= k && k < len(r0.Penalties) && (forall j :: {attesterData.EligibleIndices[j]} 0 <= j && j < len(attesterData.EligibleIndices) ==> attesterData.EligibleIndices[j] != k) ==> r0.Penalties[k] == 0)
+//@   loop 1
+//@     invariant out != nil && len(out.Rewards) == len(attesterData.Flats) && len(out.Penalties) == len(attesterData.Flats) && n_set_score == old(n_set_score)
+//@     invariant penaltyDenominator == mul64(spec.INACTIVITY_SCORE_BIAS, inactivityPenaltyQuotient)
+//@     invariant forall k :: {out.Rewards[k]} 0 <= k && k < len(out.Rewards) ==> out.Rewards[k] == 0
+//@     invariant old(spec != nil && epc != nil && attesterData != nil && inactivityScores != nil && len(attesterData.Flats) < 4611686018427387904 && mul64(spec.INACTIVITY_SCORE_BIAS, inactivityPenaltyQuotient) != 0 && (forall i, j :: {attesterData.EligibleIndices[i], attesterData.EligibleIndices[j]} 0 <= i && i < j && j < len(attesterData.EligibleIndices) ==> attesterData.EligibleIndices[i] != attesterData.EligibleIndices[j]) && (forall j :: {attesterData.EligibleIndices[j]} 0 <= j && j < len(attesterData.EligibleIndices) ==> attesterData.EligibleIndices[j] < len(attesterData.Flats))) ==> (forall j :: {attesterData.EligibleIndices[j]} 0 <= j && j <= rangeindex ==> out.Penalties[attesterData.EligibleIndices[j]] == ite(!(!attesterData.Flats[attesterData.EligibleIndices[j]].Slashed && attesterData.PrevParticipation[attesterData.EligibleIndices[j]] & 2 != 0), mul64(attesterData.Flats[attesterData.EligibleIndices[j]].EffectiveBalance, score_at(n_set_score, inactivityScores, attesterData.EligibleIndices[j])) / mul64(spec.INACTIVITY_SCORE_BIAS, inactivityPenaltyQuotient), 0))
+//@     invariant old(spec != nil && epc != nil && attesterData != nil && inactivityScores != nil && len(attesterData.Flats) < 4611686018427387904 && mul64(spec.INACTIVITY_SCORE_BIAS, inactivityPenaltyQuotient) != 0 && (forall i, j :: {attesterData.EligibleIndices[i], attesterData.EligibleIndices[j]} 0 <= i && i < j && j < len(attesterData.EligibleIndices) ==> attesterData.EligibleIndices[i] != attesterData.EligibleIndices[j]) && (forall j :: {attesterData.EligibleIndices[j]} 0 <= j && j < len(attesterData.EligibleIndices) ==> attesterData.EligibleIndices[j] < len(attesterData.Flats))) ==> (forall k :: {out.Penalties[k]} 0 <= k && k < len(out.Penalties) && (forall j :: {attesterData.EligibleIndices[j]} 0 <= j && j <= rangeindex ==> attesterData.EligibleIndices[j] != k) ==> out.Penalties[k] == 0)
 
 //@ func AttestationRewardsAndPenalties(ctx, spec, epc, attesterData, state) (r0, err)
 //@   property C18
@@ -181,6 +221,7 @@ package altair
 //@   loop *
 //@     invariant ctx_t >= old(ctx_t) && (old(ctx_seen) || !ctx_seen)
 //@     invariant ctx_t > old(ctx_t) ==> !ctx_cancelled(ctx, old(ctx_t))
+//@   assigns ghost(n_biter), ghost(biter_pos), ghost(biter_reg)
 
 //@ func ProcessInactivityUpdates(ctx, spec, attesterData, state) err
 //@   property C18 C02
@@ -267,6 +308,7 @@ package altair
 //@     invariant ctx_t >= old(ctx_t) && (old(ctx_seen) || !ctx_seen)
 //@     invariant ctx_t > old(ctx_t) ==> !ctx_cancelled(ctx, old(ctx_t))
 //@   assigns ghost(n_set_score)
+//@   assigns ghost(n_biter), ghost(biter_pos), ghost(biter_reg), ghost(n_set_eb)
 //@   assigns ghost(n_eth1_reset), ghost(n_slash_reset), ghost(last_slash_reset), ghost(n_set_mix), ghost(last_set_mix_epoch), ghost(last_set_mix), ghost(n_hist_update)
 //@   assigns ghost(n_set_prevjust), ghost(set_prevjust), ghost(n_set_curjust), ghost(set_curjust), ghost(n_set_fin), ghost(set_fin), ghost(n_set_jbits), ghost(set_jbits)
 //@   assigns ghost(n_viter), ghost(viter_pos), ghost(viter_reg), ghost(n_val_write), ghost(n_set_exit), ghost(set_exit_v), ghost(set_exit_val), ghost(n_set_wd), ghost(set_wd_v), ghost(set_wd_val)
